@@ -210,13 +210,7 @@ func (p *Program) indexCalls(fn *ssa.Function) {
 				continue
 			}
 			id, _ := p.calleeIDNoLock(c)
-			name := id
-			if i := strings.LastIndex(name, "."); i >= 0 {
-				name = name[i+1:]
-			}
-			if name == "" {
-				name = "dyn"
-			}
+			name := labelName(id)
 			seq++
 			all = append(all, cs{c, in.Pos(), name, seq})
 		}
